@@ -241,7 +241,8 @@ def exec_case(pack, case, seed):
     w.activate()
     fails = []
     nkind, nlen = case["name"]
-    show, level = case["pa"]
+    show, level = case["pa"][:2]
+    lna = case["pa"][2] if len(case["pa"]) > 2 else True
     name_arg, name_raw = name_value(nkind, nlen, seed)
     mac_arg, mac_exp = mac_value(case["mac"], seed, nlen)
     feats = {"name": "none" if name_raw is None else "set", "pa": "on" if show else "off",
@@ -264,7 +265,8 @@ def exec_case(pack, case, seed):
         guarded("hop_channel", drv.hop_channel)
     if mac_arg != "keep":
         guarded("mac", lambda: setattr(drv, "mac", mac_arg))
-    guarded("pa_level", lambda: setattr(drv, "pa_level", level))
+    # (the tuple form also switches the LNA gain bit of RF_SETUP off: the advertised TX power is the PA level all the same)
+    guarded("pa_level", lambda: setattr(drv, "pa_level", level if lna else (level, False)))
     # optional fields, in either order; a setter may refuse only what can never be advertised
     name_eff, show_eff = None, False
     rejected = []
@@ -425,7 +427,7 @@ def items_fields(tier, seed):
     """optional-field product: every name x PA configuration x setter order x channel, data =
     nothing / a raw buffer / a one-element list sized limit-2..limit+2"""
     items = []
-    pas = [(s, lv) for s in (False, True) for lv in PA_LEVELS]
+    pas = [(s, lv) for s in (False, True) for lv in PA_LEVELS] + [(True, lv, False) for lv in PA_LEVELS]
     for ni, name in enumerate(name_domain()):
         cases = []
         for pa in pas:
